@@ -630,3 +630,28 @@ Proof.
   - vm_compute. split; [reflexivity|]. split; [|reflexivity]. auto 20.
 Qed.
 Print Assumptions C11_free_list_nonvacuous.
+
+(* ------------------------------------------------------------------ range replays, repaired receiver *)
+(* Every schedule made of gap-free runs that start at or before the first undelivered message and reach at least the
+   newest delivered one (single deliveries, duplicates of the newest message, replays of backlog ranges up to the end)
+   is an in-order delivery with redelivery of earlier messages ... *)
+Theorem C11_runs_are_deliveries : forall reqs m d m', delivery_runs reqs m d m' -> delivery reqs m d m'.
+Proof. exact runs_are_deliveries. Qed.
+Print Assumptions C11_runs_are_deliveries.
+
+(* ... so for the repaired receiver (which drops what is not above lastSeq), after any history with such range replays
+   the store and the pool reservations are exactly those of the live sessions.  (/repo HEAD re-applies the replayed
+   messages; its store converges — C11_converges_replays_partial — and its reservations are compared with this
+   model's by the check in mode replay; they have no theorem of their own.) *)
+Theorem C11_pools_exact_replays :
+  forall g0 cap g evs d,
+  g <> 0%N -> (forall e, In e evs -> s_srg (fst e) = g) -> (N.of_nat (length evs) < n64)%N ->
+  fresh g0 ->
+  (forall i, (i <= length evs)%nat -> uniq g0 (live_run (firstn i evs))) ->
+  let reqs := snd (sender_run [(g, (0%N, new_ring cap))] evs) in
+  delivery_runs reqs 0 d (length reqs) ->
+  rc_store (recv_run repaired (mkrecv [] [] g0) d) = expected_store (live_run evs) /\
+  forall x sid, lease_at (rc_reg (recv_run repaired (mkrecv [] [] g0) d)) x = Some sid <->
+                In (x, sid) (expected_leases g0 (live_run evs)).
+Proof. exact pools_exact_replays. Qed.
+Print Assumptions C11_pools_exact_replays.
